@@ -10,7 +10,7 @@ from simkit import terms as T
 
 ID = "C14"
 LEVEL = "exploration"
-RUNS = {"quick": 8000, "thorough": 200000}
+RUNS = {"quick": 24000, "thorough": 500000}
 RULE = ("seeded runs: bindings (empty prefix, IRIs with/without '/' '#', non-ASCII) x statement sequence x both "
         "integrations x TRIPLES/QUADS/GRAPHS x small tables (declarations cause evictions); written with the option "
         "on and off, read through flat parse, container parse and the other integration, re-serialized and read "
